@@ -950,7 +950,11 @@ def obligations(tier):
             obs.append(Ob(f"shared_gaps/G{g1}x{g2}", __name__, "mk_minus_shared", {"G1": g1, "G2": g2, "which": "shared"}, timeout=900, group="binary"))
             obs.append(Ob(f"minus_gaps/G{g1}x{g2}", __name__, "mk_minus_shared", {"G1": g1, "G2": g2, "which": "minus"}, timeout=900, group="binary"))
     for G in ([0, 1, 2] if T else [0, 1]):
-        obs.append(Ob(f"joined_segments/G{G}", __name__, "mk_joined", {"G": G}, timeout=900, group="binary"))
+        if G == 2:
+            # dict-keyed code with two gap runs: thousands of concrete key choices; attempted with a shorter sequence, not counted if not exhausted
+            obs.append(Ob(f"joined_segments/G{G}", __name__, "mk_joined", {"G": G, "PMAX": 4}, timeout=3600, group="binary", optional=True))
+        else:
+            obs.append(Ob(f"joined_segments/G{G}", __name__, "mk_joined", {"G": G}, timeout=900, group="binary"))
     for which in ("intersect", "minus"):
         obs.append(Ob(f"coords_{which}", __name__, "mk_coords_ops", {"which": which}, timeout=900, group="intervals"))
     for kinds in ["S", "SS", "SLS", "LSL", "SSS"]:
@@ -959,8 +963,8 @@ def obligations(tier):
         for which in ("covered", "inverse", "shadow"):
             if which == "covered" and n == 3 and not T:
                 continue
-            pmax = {1: 6, 2: 4 if T else 3, 3: 3}[n]
-            obs.append(Ob(f"fm_{which}/n{n}", __name__, "mk_fm_covered_inverse", {"nspans": n, "which": which, "PMAX": pmax}, timeout=900, group="featuremap"))
+            pmax = {1: 6, 2: 4 if T else 3, 3: 2}[n]
+            obs.append(Ob(f"fm_{which}/n{n}", __name__, "mk_fm_covered_inverse", {"nspans": n, "which": which, "PMAX": pmax}, timeout=1800 if (which == "covered" and n == 3) else 900, group="featuremap", optional=(which == "covered" and n == 3)))
     for kinds in ["S", "SS", "SL", "LS"]:
         obs.append(Ob(f"fm_getitem/{kinds}", __name__, "mk_fm_getitem", {"kinds": kinds}, timeout=900, group="featuremap"))
     for G in [0, 1, 2]:
